@@ -396,7 +396,7 @@ func runC05(c *Ctx) {
 			if sk.File == nil || !strings.Contains(sk.Src, "SanitizeStyleAttributeValues") {
 				continue
 			}
-			direct := emitsConst(gf.Tree, "SanitizeStyleAttributeValues")
+			direct := gf == g.nearestEmitter("SanitizeStyleAttributeValues")
 			if !direct {
 				continue
 			}
